@@ -3,13 +3,13 @@ CONSTANTS
  Elems <- E3
  TAU = 2
  Dur = 1
- FailSet = {}
+ FailSet = {1}
  MaxTime = 4
- Waits <- W1
- CancelOf <- CancelT
+ Waits <- NoWaits
+ CancelOf <- NoCancel
  Foreign = FALSE
- KindOf <- AllCalls
- LoadOf <- NoLoad
+ KindOf <- K_eaa
+ LoadOf <- L_eaa
  ClearInputs = TRUE
 INVARIANT Inv_C03
 INVARIANT Inv_C07
